@@ -113,6 +113,7 @@ class GearModel:
         # behaviour switches used for fault injection
         self.ignore_program = False           # never stores PROGRAM SHORT ADDRESS
         self.mute_verify = False              # never answers VERIFY SHORT ADDRESS
+        self.program_failures_left = 0        # this many further PROGRAM SHORT ADDRESS that reach the unit are not stored
         self.no_dtr0_increment = False        # memory access does not advance DTR0
         # observations
         self.flags = set()
@@ -215,11 +216,18 @@ class GearModel:
                 if self.init_state == WITHDRAWN:
                     self.flags.add("program-hit-withdrawn")
                 self.flags.add("program-matched")
-                if not self.ignore_program:
+                store = not self.ignore_program
+                if self.program_failures_left > 0:
+                    self.program_failures_left -= 1
+                    store = False
+                if store:
                     if lo == 0xFF:
                         self.short = None
                     elif lo & 0x81 == 0x01:
                         self.short = lo >> 1
+                if lo & 0x81 == 0x01 and (self.mute_verify or self.short != lo >> 1):
+                    # told to take this address, but a VERIFY SHORT ADDRESS for it will go unanswered by this unit
+                    self.flags.add("program-not-confirmed")
         elif hi == SP_VERIFY:
             if self.init_state != DISABLED and lo & 0x81 == 0x01 and self.short == (lo >> 1) and not self.mute_verify:
                 return YES
